@@ -25,6 +25,10 @@ def wr {α : Type} (a : Attr α) (i : Nat) (v : α) : Attr α := fun j => if j =
 /-- `a[i] = f(a[i])` (`+=`, `-=`, `/=`, `a[i] = a[i] + ..`) -/
 def upd {α : Type} (a : Attr α) (i : Nat) (f : α → α) : Attr α := fun j => if j = i then f (a j) else a j
 
+/-- a `scipy.sparse.lil_matrix`: a total map on index pairs; `mat[i,j] = v` -/
+abbrev Attr2 (α : Type) := Nat → Nat → α
+def wr2 {α : Type} (m : Attr2 α) (i j : Nat) (v : α) : Attr2 α := fun a b => if a = i ∧ b = j then v else m a b
+
 /-- `for k in range(n): body` -/
 def forRange {σ : Type} (n : Nat) (s : σ) (body : σ → Nat → σ) : σ := (List.range n).foldl body s
 /-- `for x in l: body` -/
